@@ -113,8 +113,10 @@ Denotes(bytes, s, bits, V(_)) ==
                        ELSE OpEq(d.ops[2], o[2], V)
                ELSE IF o[2].t = "s"
                THEN /\ d.ops[2] = S(o[2].n)
-                    /\ OpEq(d.ops[1], o[1], V)
-                    /\ (o[1].t = "r" => d.w = o[1].w)
+                    \* MOV r16,Sreg: assemblers (NASM: with 66h, GNU/LLVM: without) disagree on the prefix in the other
+                    \* mode; both forms store the selector in the low word, so either operand size is accepted
+                    /\ IF o[1].t = "r" THEN d.ops[1].t = "r" /\ d.ops[1].n = o[1].n /\ o[1].w \in {16, 32}
+                       ELSE OpEq(d.ops[1], o[1], V)
                ELSE IF o[1].t = "c" \/ o[2].t = "c"
                THEN OpEq(d.ops[1], o[1], V) /\ OpEq(d.ops[2], o[2], V)
                ELSE WOK /\ sw # -1 /\ OpEq(d.ops[1], o[1], V) /\ OpEq(d.ops[2], o[2], V)
